@@ -78,6 +78,21 @@ var csPaths = []csPath{
 	{"server", "real-obfs4-garbage", "handshake failed", []string{"peer"}},
 	{"server", "real-obfs4-truncated", "handshake failed", []string{"peer", "peer2"}},
 	{"server", "real-obfs4-replay", "handshake failed", []string{"peer", "peer2"}},
+	// client mode behind an upstream proxy (TOR_PT_PROXY): the real http / socks4a proxy dialers
+	// against a loopback "proxy" (errip=127.x.y.z) that is not there, or resets the connection
+	// at once / after it has read the CONNECT resp. SOCKS4 request
+	{"client", "proxy-http-refused", "outgoing connection failed", []string{"target", "errip"}},
+	{"client", "proxy-http-reset", "outgoing connection failed", []string{"target", "errip"}},
+	{"client", "proxy-http-earlyreset", "outgoing connection failed", []string{"target", "errip"}},
+	{"client", "proxy-socks4a-refused", "outgoing connection failed", []string{"target", "errip"}},
+	{"client", "proxy-socks4a-reset", "outgoing connection failed", []string{"target", "errip"}},
+	{"client", "proxy-socks4a-earlyreset", "outgoing connection failed", []string{"target", "errip"}},
+	// the accept loops on a scripted listener (address local=): Accept() fails twice with a
+	// temporary error (EMFILE), then permanently (EINVAL), then with net.ErrClosed.  The unchanged
+	// code logs nothing here (no marker, nothing to expect with unsafe logging); whatever a
+	// changed tree logs must not contain the listener's address.
+	{"client", "accept-errors", "", nil},
+	{"server", "accept-errors", "", nil},
 }
 
 func hostOf(hostport string) string {
@@ -287,6 +302,11 @@ func callSites(r *vlib.Run, replay *csCase) {
 					// this target is really dialled: a loopback address nobody listens on
 					// (refused at once, whatever the network of the machine)
 					c.Target = real
+				}
+				if strings.HasPrefix(p.path, "proxy-") {
+					// both proxy dialers resolve the target: an IPv4 literal; the proxy is on loopback
+					c.Target = fmt.Sprintf("203.0.113.%d:%d", rng.Range(2, 250), rng.Range(1, 65000))
+					c.ErrIP = fmt.Sprintf("127.%d.%d.%d", rng.Range(2, 250), rng.Range(2, 250), rng.Range(2, 250))
 				}
 				csCheck(r, h, c)
 			}
